@@ -277,14 +277,106 @@ def one_case(rep, cs, seed, i):
     cs.add(desc, term, interp, nontrivial=True)
 
 
+LOGIC_CONST_FORMULAS = {
+    # constants below gates (as SDD files produce them), also nested one gate deeper
+    "sdd-like": ("or", ("and", ("lit", 0), ("or", ("and", ("lit", 1), "T"), ("and", ("not", 1), ("lit", 2)))),
+                 ("and", ("not", 0), ("or", ("and", ("lit", 1), "F"), ("and", ("not", 1), ("not", 2))))),
+    "nested-false": ("or", ("and", ("lit", 0), ("lit", 1), ("and", ("lit", 2), "F")), ("and", ("not", 0), ("lit", 1), ("lit", 2))),
+    "nested-false-deep": ("or", ("and", ("lit", 0), ("or", ("and", ("lit", 1), ("lit", 2), ("and", ("lit", 3), "F")),
+                                                     ("and", ("not", 1), ("lit", 2), ("lit", 3)))),
+                          ("and", ("not", 0), ("lit", 1), ("lit", 2), ("not", 3))),
+    "top-in-decision": ("or", ("and", ("lit", 0), "T"), ("and", ("not", 0), ("lit", 1))),
+    # a gate left with a single input (or none) once the constants are removed
+    "and-top": ("and", ("lit", 0), "T"),
+    "and-nested-top": ("and", ("lit", 0), ("lit", 1), ("and", "T", "T")),
+}
+
+
+def logic_const_case(rep, seed, i):
+    """formulas with the constants true / false below (and one gate below) conjunctions and disjunctions"""
+    rng = rng_for(seed, PID + "lconst", i)
+    name = sorted(LOGIC_CONST_FORMULAS)[i % len(LOGIC_CONST_FORMULAS)]
+    f = LOGIC_CONST_FORMULAS[name]
+    nv = 1 + max(v for v in _fvars(f))
+    ids = list(range(nv))
+    rng.shuffle(ids)                       # variable numbering is arbitrary
+    fold, opt = rng.choice(evalc.FLAGS)
+    desc = {"i": i, "seed": seed, "family": "logic-constants", "formula": name, "renaming": ids, "fold": fold, "opt": opt}
+    rep.count("family:logic-constants:" + name)
+    rep.case(desc, True)
+    innodes = {}
+    lits = {}
+
+    def rec(g):
+        if g == "T":
+            return LG.TopNode()
+        if g == "F":
+            return LG.BottomNode()
+        if g[0] in ("lit", "not"):
+            key = (g[0], ids[g[1]])
+            if key not in lits:
+                lits[key] = LG.LiteralNode(key[1]) if g[0] == "lit" else LG.NegatedLiteralNode(key[1])
+            return lits[key]
+        ch = [rec(h) for h in g[1:]]
+        node = LG.ConjunctionNode() if g[0] == "and" else LG.DisjunctionNode()
+        innodes[node] = ch
+        return node
+
+    def truth(g, a):
+        if g == "T":
+            return True
+        if g == "F":
+            return False
+        if g[0] == "lit":
+            return bool(a[ids[g[1]]])
+        if g[0] == "not":
+            return not a[ids[g[1]]]
+        vals = [truth(h, a) for h in g[1:]]
+        return all(vals) if g[0] == "and" else any(vals)
+
+    try:
+        root = rec(f)
+        nodes = list(set(itertools.chain(*innodes.values())).union(innodes.keys()))
+        sc = LG.LogicalCircuit(nodes, innodes, [root]).build_circuit()
+        cc = evalc.make_ctx("sum-product", fold, opt).compile(sc)
+    except Exception as e:
+        rep.violation("logic-constant-gate:" + name, "building the circuit of a formula that contains the constants true / false raised "
+                      f"({type(e).__name__}: {str(e)[:80]})", {"case": desc, "exception": repr(e)[:300], "traceback": traceback.format_exc()[-1200:]})
+        return
+    allx = list(itertools.product([0, 1], repeat=nv))
+    used = sorted(sc.scope._set)
+    try:
+        got = evalc.evaluate(cc, sc, [{v: x[v] for v in used} for x in allx], "sum-product", int_inputs=True)[:, 0, 0]
+    except Exception as e:
+        rep.violation("template-exception:logic:" + type(e).__name__, "evaluating a logic circuit raised", {"case": desc, "exception": repr(e)[:300]})
+        return
+    exp = np.array([1.0 if truth(f, x) else 0.0 for x in allx])
+    if not close(got, exp, rtol=1e-9, atol=1e-12):
+        rep.violation("logic-truth-value", "the logic circuit does not evaluate to the truth value of its formula",
+                      {"case": desc, "observed": got.tolist(), "expected": exp.tolist()})
+
+
+def _fvars(g):
+    if g in ("T", "F"):
+        return set()
+    if g[0] in ("lit", "not"):
+        return {g[1]}
+    return set().union(*(_fvars(h) for h in g[1:]))
+
+
 def run(rep, tier, seed, replay=None):
     n = 120 if tier == "quick" else 2000
     cs = CaseSet(rep, PID)
     if replay is not None:
         c = replay["replay"].get("case", {})
-        one_case(rep, cs, c.get("seed", seed), c.get("i", 0))
+        if c.get("family") == "logic-constants":
+            logic_const_case(rep, c.get("seed", seed), c.get("i", 0))
+        else:
+            one_case(rep, cs, c.get("seed", seed), c.get("i", 0))
         cs.run()
         return
     for i in range(n):
         one_case(rep, cs, seed, i)
+    for i in range(max(12, n // 10)):
+        logic_const_case(rep, seed, i)
     cs.run(shard=max(6, 120 // 14))  # shard size of the quick tier: thorough runs use more files, not longer ones
